@@ -83,8 +83,15 @@ class CanaryStream(Stream):
             "cubbyhole, token metadata, mount description, response wrapping, identity entity, CORS, password policy, "
             "audited header name, UI header) carrying a fresh canary in a value position; after each request every "
             "physical value is scanned for any 8-byte canary fragment; then the keyring's term keys and root key are "
-            "scanned for, a key rotation is performed and everything is scanned again; non-trivial = the request "
-            "succeeded; distinct = distinct (round, kind)")
+            "scanned for, a key rotation is performed and everything is scanned again; sys/raw storage selection (Core built "
+            "with EnableRaw): ~48 generated keys per round — the exact bootstrap keys core/seal-config and "
+            "core/recovery-config (value saved and restored), strict extensions (suffix, sub-path, trailing slash), "
+            "near misses, protected paths and their extensions, other core/ keys, ordinary keys, namespaces/<uuid>/... "
+            "for the root UUID, an unknown UUID and a live child namespace — each driven through (a) the real "
+            "RawBackend.storageByPath called directly (type of the returned StorageAccess, allowWrites) and (b) sys/raw "
+            "write (canary searched in the physical value + independent core.barrier.Get + read-back), list, read of "
+            "plaintext planted in the physical backend, delete; the driver (Model/RawAccess.lean) predicts direct vs "
+            "barrier vs refused; non-trivial = the request succeeded; distinct = distinct op line")
 
     def nontrivial(self, op, impl):
         return not impl.startswith("err")
@@ -114,14 +121,18 @@ class C01(PropCheck):
                   "(key binding, current format), get_authentic_v1 (legacy: authenticated, relocatable), get_authentic, "
                   "get_key_bound, get_raw_fails, get_tampered_fails (term / version / transplant), get_last_written "
                   "(refinement to a map across rotations), rotate_preserves_reads — all for unbounded histories; "
-                  "direct_writers_allowed over the go/types-regenerated table of direct physical writers. Model tied to the "
+                  "direct_writers_allowed over the go/types-regenerated table of direct physical writers; "
+                  "raw_direct_only_for_fixed_set / raw_plain_path_direct_only_fixed / raw_direct_only_for_fixed_set_partial "
+                  "over a transliteration of RawBackend.storageByPath (which sys/raw requests get the unencrypted direct "
+                  "access), with raw_direct_only_for_fixed_set_cex for the namespace-UUID alias (finding F47). Model tied to the "
                   "Go code on every run by stream `barrier` (real barrier on inmem, independent AEAD opens, tamper sweeps) and "
                   "the property predicate (only sealed records written; tampered/transplanted reads error; no plaintext or "
                   "key fragment in the physical store) is evaluated on every implementation output")
     level_note = ("trusted: Lean kernel; AES-GCM idealised (opens only under the same key and AAD; bodies unforgeable) — made "
                   "concrete on every run by independent crypto/cipher opens; hand-written model and its differential tie; "
                   "the go/types extractor; allow-list classes are a reading of the property's fixed set. Known deviations: F12 "
-                  "(UIConfig.save writes sys/config/ui headers in clear, by design). Boundary: version 2 binds no AAD for the "
+                  "(UIConfig.save writes sys/config/ui headers in clear, by design), F47 (sys/raw namespaces/<root-uuid>/core/"
+                  "seal-config selects the direct access). Boundary: version 2 binds no AAD for the "
                   "EMPTY storage path (theorem empty_path_relocatable; no server path writes it). Seal/unseal is C10")
     assumptions = [
         "AES-GCM (crypto/cipher) is an ideal AEAD: a body opens only under the key and AAD it was sealed with; nonces are fresh",
